@@ -149,23 +149,37 @@ Definition out_close (tol : Q) (a b : option (Q * list Q)) : bool :=
   | _, _ => false
   end.
 
-(* decidable spec for fixed layout outputs: the sum, and declared column widths honoured up to a common bonus
-   which is zero unless the table keeps its width *)
+(* decidable spec for fixed layout outputs (CSS 2.1 17.5.2.1), written on the outputs only:
+   - the sum; the table is never narrowed;
+   - every column with a declared width has that width plus a common bonus; every first-row cell with a width,
+     one of whose columns has no declared width, has its columns + inner spacings = its border box + span * bonus;
+   - the bonus is >= 0, and is 0 unless the table keeps its width *)
+Fixpoint cell_bonuses (W spacing : Q) (init : list (option Q)) (ws : list Q) (cells : list fcell) (off : nat) : list Q :=
+  match cells with
+  | [] => []
+  | c :: rest =>
+      let span := fc_span c in
+      let seg0 := firstn span (skipn off init) in
+      let segw := firstn span (skipn off ws) in
+      (match resolve (fc_width c) W with
+       | Some w => if (0 <? nnone seg0)%nat && (0 <? span)%nat
+                   then [(qsum segw + spacing * (qnat span - 1) - w - fc_bp c) / qnat span] else []
+       | None => []
+       end) ++ cell_bonuses W spacing init ws rest (off + span)
+  end.
+Definition column_bonuses (W : Q) (cols : list decl) (ws : list Q) : list Q :=
+  flat_map (fun p => match resolve (fst p) W with Some v => [snd p - v] | None => [] end) (combine cols ws).
+
 Definition fixed_spec_b (tol : Q) (W spacing : Q) (cols : list decl) (cells : list fcell) (out : Q * list Q) : bool :=
   let '(W', ws) := out in
   let n := length ws in
   Nat.eqb n (Nat.max (length cols) (spans cells)) &&
   ((Nat.eqb n 0 && negb (Qle_bool W spacing)) || close tol W' (qsum ws + spacing * (qnat n + 1))) &&
   leq tol W W' &&
-  (let declared := combine (map (fun d => resolve d W) cols) ws in
-   match filter (fun p => negb (is_none (fst p))) declared with
-   | [] => true
-   | (d0, w0) :: _ =>
-       let bonus := w0 - oval d0 in
-       leq tol 0 bonus &&
-       forallb (fun p => is_none (fst p) || close tol (snd p) (oval (fst p) + bonus)) declared &&
-       (close tol bonus 0 || close tol W' W)
-   end).
+  match column_bonuses W cols ws ++ cell_bonuses W spacing (fixed_init W cols cells) ws cells 0 with
+  | [] => true
+  | b0 :: rest => leq tol 0 b0 && forallb (close tol b0) rest && (close tol b0 0 || close tol W' W)
+  end.
 
 Definition fixed_judge_tol (tol : Q) (c : Q * Q * list decl * list fcell * option (Q * list Q)) : nat :=
   let '(W, spacing, cols, cells, out) := c in
